@@ -174,42 +174,66 @@ theorem ringIdx_spec (cap head len : Nat) (hc : 0 < cap) (hl : len ≤ cap) :
       · next hn2 => simp only [List.getElem_map, List.getElem_range]; simp at hn2; split <;> omega
       · next hn2 => simp only [List.getElem_range]; simp at hn2 ⊢; split <;> omega
 
-/-- FULL statement for `VecDeque` (what the property asks): for every capacity, head < capacity and length ≤ capacity the
-    slots shown are the slots of the logical sequence.  FALSE of the unchanged code (see the counterexample). -/
-def C06_vecdeque_ring_full : Prop :=
-  ∀ cap head len : Nat, head < cap → len ≤ cap →
-    dequeIdx cap head len = (List.range len).map (fun i => (head + i) % cap)
+/-- the two slot ranges `specialize` reads (head part at its slot, wrapped part at slot 0), chained, are `ringIdx` -/
+theorem ringIdx_ranges (cap head len : Nat) :
+    ringIdx cap head len =
+      (List.range (ringRanges cap head len).2.1).map ((ringRanges cap head len).1 + ·) ++
+        List.range (ringRanges cap head len).2.2 := by
+  unfold ringIdx ringRanges
+  simp only
+  generalize (if cap = 0 then 0 else head % cap) = ws
+  by_cases h : cap - ws ≥ len <;> simp [h]
 
-/-- named hypothesis of the partial theorem: the real capacity does not exceed `CAP_GUARD` -/
-def CapWithinGuard (cap : Nat) : Prop := (cap : Int) ≤ CAP_GUARD
-instance (cap : Nat) : Decidable (CapWithinGuard cap) := by unfold CapWithinGuard; exact inferInstance
+/-- both ranges lie inside the buffer and together hold `len` slots -/
+theorem ringRanges_bounds (cap head len : Nat) (hc : 0 < cap) (hl : len ≤ cap) :
+    (ringRanges cap head len).1 + (ringRanges cap head len).2.1 ≤ cap ∧ (ringRanges cap head len).2.2 ≤ cap ∧
+      (ringRanges cap head len).2.1 + (ringRanges cap head len).2.2 = len := by
+  have hlt : head % cap < cap := Nat.mod_lt _ hc
+  have hne : cap ≠ 0 := by omega
+  unfold ringRanges
+  simp only [hne, if_false]
+  split <;> simp <;> omega
 
-/-- **C06_vecdeque_ring_partial**: for every ring whose capacity is within the guard, every head and every length,
-    the decoder shows exactly the logical sequence (element `i` from slot `(head + i) % cap`). -/
-theorem C06_vecdeque_ring_partial (cap head len : Nat) (hc : 0 < cap) (hl : len ≤ cap) (hg : CapWithinGuard cap) :
-    dequeIdx cap head len = (List.range len).map (fun i => (head + i) % cap) := by
-  have hg' : (cap : Int) ≤ 10000 := hg
-  have hcg : CAP_GUARD = 10000 := rfl
+/-- **C06_vecdeque_ring** (full strength; repaired by 6655f7c): for EVERY capacity — also above CAP_GUARD —, every head and
+    every length up to the capacity the slots shown are the slots of the logical sequence (element `i` from slot
+    `(head + i) % cap`), cut after the first LEN_GUARD elements (the documented guard: a truncation, never other slots). -/
+theorem C06_vecdeque_ring (cap head len : Nat) (hc : 0 < cap) (hl : len ≤ cap) :
+    dequeIdx cap head len = (List.range (min len LEN_GUARD.toNat)).map (fun i => (head + i) % cap) := by
   have hlg : LEN_GUARD = 10000 := rfl
-  have h1 : ¬ ((cap : Int) > 10000) := by omega
-  have h2 : ¬ ((len : Int) > 10000) := by omega
-  simp only [dequeIdx, guardCap, guardLen, hcg, hlg, h1, h2, if_false, Int.toNat_natCast]
-  exact ringIdx_spec cap head len hc hl
+  unfold dequeIdx guardLen
+  rw [hlg]
+  split
+  · next h =>
+    have e : min len (10000 : Int).toNat = 10000 := by
+      have : (10000 : Int).toNat = 10000 := rfl
+      rw [this]; omega
+    rw [e]
+    exact ringIdx_spec cap head 10000 hc (by omega)
+  · next h =>
+    have e : min len (10000 : Int).toNat = len := by
+      have : (10000 : Int).toNat = 10000 := rfl
+      rw [this]; omega
+    rw [e, Int.toNat_natCast]
+    exact ringIdx_spec cap head len hc hl
 
-/-- **C06_vecdeque_ring_counterexample**: capacity 16000 (> CAP_GUARD), head 11990, 10 elements: the decoder reads slots
-    1990…1999 instead of 11990…11999 (`guard_cap` clamps the capacity BEFORE `head % cap`). Replayed on the real code:
-    corpus/C06/bigdeque.req, oracle key `vecdeque-capacity-above-guard-wrong-elements`. -/
-theorem C06_vecdeque_ring_counterexample : ¬ C06_vecdeque_ring_full := by
-  intro h
-  have := h 16000 11990 10 (by decide) (by decide)
-  revert this
-  decide
+/-- a deque no longer than the guard is shown whole, whatever its capacity -/
+theorem C06_vecdeque_ring_untruncated (cap head len : Nat) (hc : 0 < cap) (hl : len ≤ cap) (hg : (len : Int) ≤ LEN_GUARD) :
+    dequeIdx cap head len = (List.range len).map (fun i => (head + i) % cap) := by
+  rw [C06_vecdeque_ring cap head len hc hl]
+  have hlg : LEN_GUARD = 10000 := rfl
+  rw [hlg] at hg ⊢
+  have : (10000 : Int).toNat = 10000 := rfl
+  rw [this, Nat.min_eq_left (by omega)]
 
-example : dequeIdx 16000 11990 10 = [1990, 1991, 1992, 1993, 1994, 1995, 1996, 1997, 1998, 1999] := by decide
-example : CapWithinGuard 8 ∧ dequeIdx 8 6 5 = [6, 7, 0, 1, 2] := by decide
+/-- the witness of the repaired defect (capacity 16000 > CAP_GUARD, head 11990, 10 elements: the code as found read slots
+    1990…1999): slots 11990…11999.  Replayed on the real code: corpus/C06/bigdeque.req, oracle key
+    `vecdeque-capacity-above-guard-wrong-elements`. -/
+example : dequeIdx 16000 11990 10 = [11990, 11991, 11992, 11993, 11994, 11995, 11996, 11997, 11998, 11999] := by decide
+example : dequeIdx 8 6 5 = [6, 7, 0, 1, 2] := by decide
+example : ringRanges 8 6 5 = (6, 2, 3) := by decide
 
-/-- the order of clamp and modulo in the source is what the model transcribes (re-read from the source every run) -/
-theorem C06_vecdeque_clamp_order_tie : Gen.ValGuards.dequeClampBeforeMod = true := by decide
+/-- the source no longer clamps the capacity before `head % cap` (re-read from the source every run) -/
+theorem C06_vecdeque_clamp_order_tie : Gen.ValGuards.dequeClampBeforeMod = false := by decide
 
 /-! ## hashbrown: the control-byte scan yields exactly the full buckets, each once, in index order -/
 
@@ -498,15 +522,16 @@ example : (inorder exC exLm exIm 1 1 0 1000).map (fun kv => (kv.1.bytes, kv.2.by
 
 /-! ## Collections show exactly their elements -/
 
-/-- **C06_collections_exact (VecDeque)**: the slots shown are pairwise distinct and as many as the length:
-    no element missing, none shown twice -/
-theorem C06_collections_exact_deque (cap head len : Nat) (hc : 0 < cap) (hl : len ≤ cap) (hg : CapWithinGuard cap) :
-    (dequeIdx cap head len).length = len ∧ (dequeIdx cap head len).Nodup := by
-  rw [C06_vecdeque_ring_partial cap head len hc hl hg]
+/-- **C06_collections_exact (VecDeque)**: the slots shown are pairwise distinct and as many as the length (up to the
+    guard): no element missing, none shown twice — for every capacity -/
+theorem C06_collections_exact_deque (cap head len : Nat) (hc : 0 < cap) (hl : len ≤ cap) :
+    (dequeIdx cap head len).length = min len LEN_GUARD.toNat ∧ (dequeIdx cap head len).Nodup := by
+  rw [C06_vecdeque_ring cap head len hc hl]
   refine ⟨by simp, ?_⟩
   rw [List.Nodup, List.pairwise_iff_getElem]
   intro i j hi hj hij
-  have hj' : j < len := by simpa using hj
+  have hj' : j < min len LEN_GUARD.toNat := by simpa using hj
+  have hjl : j < len := by omega
   have hi' : i < len := by omega
   simp only [List.getElem_map, List.getElem_range]
   intro heq
